@@ -237,7 +237,7 @@ pub fn check_case(ctx: &Ctx, st: &mut Stats, c: &Case, tag: &str) {
     }
 }
 
-const BLANKS: [char; 20] = ['.', '_', 'x', '-', '*', '?', 'o', '"', '·', '□', '＿', 'é', 'a', 'b', 'e', 'g', 'A', 'F', 'z', 'Z'];
+const BLANKS: [char; 23] = ['.', '_', 'x', '-', '*', '?', 'o', '"', '·', '□', '＿', 'é', 'a', 'b', 'e', 'g', 'A', 'F', 'z', 'Z', '\u{feff}', '\u{200b}', '\u{ad}'];
 
 fn layout(rng: &mut Rng, root: usize, grid: &[usize]) -> String {
     let sq = root * root;
@@ -422,8 +422,23 @@ pub fn run(ctx: &Ctx) -> (Stats, Spec) {
             st.bump("large_inputs");
         }
     }
+    // file names that are not valid UTF-8: same formula as through stdin / stdout
+    {
+        let puzzle = "1.3...2.....4...";
+        let plain = cli::run(&ctx.bin("sudoku_gen"), &["-r".to_string(), "2".to_string()], Some(puzzle.as_bytes()), None, None, Duration::from_secs(60));
+        let (out, written) = super::common::run_with_non_utf8_paths(ctx, "sudoku_gen", &["-r", "2"], Some(puzzle.as_bytes()), &[], true, "c17");
+        st.evals += 1;
+        if !out.timed_out && !plain.timed_out {
+            let same = matches!((written.as_deref().map(refsyn::parse_text), refsyn::parse_text(&plain.stdout_str())), (Some(Ok(x)), Ok(y)) if x == y);
+            if !out.ok() || !same || !out.stdout_str().trim().is_empty() {
+                st.violate("c17.run", "C17:non-utf8-file-names".into(), format!("sudoku_gen -r 2 IN OUT with file names that are not valid UTF-8: {}; OUT holds {:?} bytes, stdout {} bytes (expected the formula in OUT only)", out.status_string(), written.as_ref().map(|w| w.len()), out.stdout.len()), json!({"kind": "non-utf8-names"}));
+            } else {
+                st.bump("file_names_not_valid_utf8");
+            }
+        }
+    }
     let spec = Spec {
-        rule: "root 1 exhaustively; root 2: the empty puzzle (288 grids) and random hint patterns (0-16 givens taken from valid grids, contradictory patterns incl. box-only conflicts, truncated and over-long inputs, puzzle texts spread over ~30 KiB of whitespace, 5 layouts with spaces/newlines/tabs/CRLF, 6 input channels (regular file, stdin at once / in small pieces, a named pipe or /dev/stdin as INPUT, file-to-file onto an existing longer file), 20 blank symbols incl. the double quote, multi-byte characters (·, □, ＿, é) and ASCII letters that are digits in a larger radix (a, b, e, g, A, F), ASCII and Unicode whitespace); root 3: puzzles with 30-60 givens derived from generated valid grids and the repository's example (exact model sets), sparse puzzles, root 4 and root 5 (one 25 x 25 board [quick], one per worker [thorough]) by structural probes (same digit twice in a unit, two digits / no digit in a cell, givens enforced, a valid grid satisfies, near-misses falsify). Exact = all models enumerated, decoded through _c_is_d and compared as a set with an independent backtracking solver. distinct = (root, normalised givens); non-trivial = at least one given and one blank.".into(),
+        rule: "root 1 exhaustively; root 2: the empty puzzle (288 grids) and random hint patterns (0-16 givens taken from valid grids, contradictory patterns incl. box-only conflicts, truncated and over-long inputs, puzzle texts spread over ~30 KiB of whitespace, 5 layouts with spaces/newlines/tabs/CRLF, 6 input channels (regular file, stdin at once / in small pieces, a named pipe or /dev/stdin as INPUT, file-to-file onto an existing longer file), 23 blank symbols incl. the double quote, format characters that are not whitespace (U+FEFF — a byte order mark when it comes first —, U+200B, U+00AD), multi-byte characters (·, □, ＿, é) and ASCII letters that are digits in a larger radix (a, b, e, g, A, F), ASCII and Unicode whitespace); root 3: puzzles with 30-60 givens derived from generated valid grids and the repository's example (exact model sets), sparse puzzles, root 4 and root 5 (one 25 x 25 board [quick], one per worker [thorough]) by structural probes (same digit twice in a unit, two digits / no digit in a cell, givens enforced, a valid grid satisfies, near-misses falsify). Exact = all models enumerated, decoded through _c_is_d and compared as a set with an independent backtracking solver. distinct = (root, normalised givens); non-trivial = at least one given and one blank.".into(),
         assumptions: vec![
             "givens are digits between 1 and r^2; 0 and larger digits are outside the statement's domain and are not generated".into(),
             "rsbdd itself cannot solve even the 4x4 formula within minutes, so there is no engine cross-check here".into(),
